@@ -1095,6 +1095,7 @@ size_t ZSTD_decompressMultiFrame(ZSTD_DCtx* dctx,
 {
     void* const dststart = dst;
     int moreThan1Frame = 0;
+    ZSTD_VERIF_GHOST(const void* const zstd_verif_src0 = src; size_t const zstd_verif_srcSize0 = srcSize; size_t const zstd_verif_cap0 = dstCapacity;)
 
     DEBUGLOG(5, "ZSTD_decompressMultiFrame");
     assert(dict==NULL || ddict==NULL);  /* either dict or ddict set, not both */
@@ -1104,7 +1105,10 @@ size_t ZSTD_decompressMultiFrame(ZSTD_DCtx* dctx,
         dictSize = ZSTD_DDict_dictSize(ddict);
     }
 
-    while (srcSize >= ZSTD_startingInputLength(dctx->format)) {
+    while (srcSize >= ZSTD_startingInputLength(dctx->format))
+    ZSTD_VERIF_LOOP(ZSTD_VERIF_MULTIFRAME_LOOP(src, zstd_verif_src0, srcSize, zstd_verif_srcSize0, dst, dststart, dstCapacity, zstd_verif_cap0, moreThan1Frame))
+    {
+        ZSTD_VERIF_GHOST(ZSTD_VERIF_REBASE_BYTES(const, src, zstd_verif_src0); ZSTD_VERIF_REBASE_BYTES(, dst, dststart);)
 
 #if defined(ZSTD_LEGACY_SUPPORT) && (ZSTD_LEGACY_SUPPORT >= 1)
         if (dctx->format == ZSTD_f_zstd1 && ZSTD_isLegacy(src, srcSize)) {
@@ -1148,6 +1152,7 @@ size_t ZSTD_decompressMultiFrame(ZSTD_DCtx* dctx,
 
                 src = (const BYTE *)src + skippableSize;
                 srcSize -= skippableSize;
+                ZSTD_VERIF_GHOST(zstd_verif_ghost.skipped_bytes += skippableSize;)
                 continue; /* check next frame */
         }   }
 
